@@ -141,6 +141,9 @@ class Decls:
     # -- lookups -----------------------------------------------------------
     def _pick(self, table, name, hint):
         base = name.split('<')[0].split('::')[-1].strip()
+        first = name.split('<')[0].strip().lstrip('&').split('::')[0].strip()
+        if first in ('bitcoin', 'std', 'core', 'alloc', 'secp256k1', 'bech32', 'hashbrown'):
+            return None          # type of an external crate that merely shares a name with a local one
         cands = table.get(base)
         if not cands:
             return None
